@@ -23,7 +23,7 @@ from .values import (Val, INT, BOOL, REAL, STR, TD, NONE, CONC, IntS, BoolS, Rea
                      NoneS, OptS, TupS, RecS, SeqS, EnumS, UnionS, MapS, DictS, ConcS, VNONE)
 from .objects import (Closure, LocalClass, PyMap, Obj, ExcInst, MatchObj, BoundMethod,
                       BuiltinMethod, GenExp, RangeObj, EnumerateObj, FilterObj, IsliceObj,
-                      ItemsObj, RxSym, PYINT, DECOK, PYPOW, SymbolicFile)
+                      ItemsObj, RxSym, PYINT, DECOK, PYPOW, SymbolicFile, SuperProxy)
 from .state import State, Env, VCtx, OutOfSubset, BindingLost
 from .solve import feasible
 from .source import key_of_function, class_key, live_module
@@ -348,13 +348,26 @@ class Engine:
         for part in node.values:
             if isinstance(part, ast.FormattedValue):
                 v = self.eval(part.value, st)
-                self.render_check(v, st)
+                self.render_check(v, st, part.conversion)
         self.ctx.assumptions.add("str()/format() of int, float, str, enum, timedelta, list and dict of such never raises")
         return V.fresh(STR, "fstr")
 
-    def render_check(self, v: Val, st):
-        """Formatting a value calls its __str__/__repr__; user-defined ones go through contracts."""
-        return
+    def render_check(self, v: Val, st, conversion=-1):
+        """Formatting a value calls its __str__ (or __repr__ with !r): a __str__ defined in the
+        package is executed (inlined or via its contract); everything else is library rendering."""
+        if self.spec_mode:
+            return
+        sv = v
+        if isinstance(sv.shape, OptS):
+            sv = sv.d[1]
+        if isinstance(sv.shape, RecS):
+            cls = self.live_class(sv.shape.key)
+            name = "__repr__" if conversion == ord("r") else "__str__"
+            fn = self.find_method(cls, name)
+            if fn is None and name == "__str__":
+                fn = self.find_method(cls, "__repr__") if "__repr__" not in cls.__dict__ else None
+            if fn is not None:
+                self.call_repo(fn, [sv], {}, st)
 
     def e_Lambda(self, node, st):
         return V.vconc(Closure(node, st.cur, self.fctx.qualname + ".<locals>.<lambda>", self.fctx.module))
@@ -373,7 +386,7 @@ class Engine:
                     targets.add(n.id)
         free = {n.id for n in ast.walk(node) if isinstance(n, ast.Name) and isinstance(n.ctx, ast.Load)} - targets
         if any(st.lookup(nm) is not None for nm in free):
-            raise OutOfSubset("dict comprehension over local values")
+            return self.dictcomp_static(node, st)
         mod = live_module(self.fctx.module)
         try:
             val = eval(compile(ast.Expression(node), "<closed-comprehension>", "eval"), dict(mod.__dict__))
@@ -381,6 +394,39 @@ class Engine:
             raise OutOfSubset(f"closed comprehension cannot be evaluated: {e!r}")
         self.ctx.notes.append(f"ground: closed comprehension at line {node.lineno} evaluated by the live interpreter ({len(val)} entries)")
         return V.vconc(val)
+
+    def dictcomp_static(self, node, st):
+        if len(node.generators) != 1:
+            raise OutOfSubset("dict comprehension form")
+        g = node.generators[0]
+        sub = st.sub({}, st.cur)
+        itv = self.eval(g.iter, sub)
+        if not (isinstance(itv.shape, ConcS) and isinstance(itv.d, ItemsObj) and isinstance(itv.d.mapval.shape, ConcS)
+                and isinstance(itv.d.mapval.d, PyMap)):
+            raise OutOfSubset("dict comprehension over a symbolic iterable")
+        out = PyMap()
+        for k, val in itv.d.mapval.d.items.items():
+            # bind k, v
+            if isinstance(g.target, ast.Tuple) and len(g.target.elts) == 2:
+                sub.set_local(g.target.elts[0].id, V.vstr(k) if isinstance(k, str) else V.vconc(k))
+                sub.set_local(g.target.elts[1].id, val)
+            else:
+                raise OutOfSubset("dict comprehension target")
+            ok = True
+            for c in g.ifs:
+                cv = z3.simplify(self.truth(self.eval(c, sub), sub))
+                if z3.is_false(cv):
+                    ok = False
+                elif not z3.is_true(cv):
+                    raise OutOfSubset("dict comprehension with symbolic filter")
+            if ok:
+                kv = self.eval(node.key, sub)
+                key = kv.d.as_string() if isinstance(kv.shape, StrS) and z3.is_string_value(kv.d) else (kv.d if isinstance(kv.shape, ConcS) else None)
+                if key is None:
+                    raise OutOfSubset("dict comprehension with symbolic key")
+                out.items[key] = self.eval(node.value, sub)
+        st.pc = sub.pc
+        return V.vconc(out)
 
     def e_ListComp(self, node, st):
         if len(node.generators) != 1 or node.generators[0].ifs or node.generators[0].is_async:
@@ -693,6 +739,12 @@ class Engine:
             if name in v.d:
                 return v.d[name]
             cls = self.live_class(s.key)
+            if name == "__class__":
+                return V.vconc(cls)
+            if name == "__dict__":
+                # instance dict of a (data)class instance: its fields (cached-property memos are
+                # not modelled: they never hold anything but derived values, fxvc obligation)
+                return V.vconc(PyMap(items=dict(v.d)))
             return self.class_attr_on_instance(cls, v, name, st)
         if isinstance(s, EnumS):
             if name == "value":
@@ -741,6 +793,15 @@ class Engine:
                 return V.vconc(BuiltinMethod(V.vstr(o), "str." + name))
             if isinstance(o, SymbolicFile):
                 return V.vconc(BuiltinMethod(v, "file." + name))
+            if isinstance(o, SuperProxy):
+                mro = list(type.mro(self.live_class(o.selfval.shape.key))) if isinstance(o.selfval.shape, RecS) else []
+                after = mro[mro.index(o.cls) + 1:] if o.cls in mro else []
+                for k in after:
+                    if name in k.__dict__:
+                        raw = k.__dict__[name]
+                        if callable(raw):
+                            return V.vconc(BoundMethod(o.selfval, raw, name))
+                raise OutOfSubset(f"super().{name}")
             if isinstance(o, LocalClass):
                 raise OutOfSubset("attribute of local class")
             if isinstance(o, type) and name in ("__name__", "__qualname__"):
